@@ -91,4 +91,45 @@ def frame (c : ICfg) (body : List Nat) : Option (List Nat) :=
   | .ok bs => some bs
   | _ => none
 
+/-! ### the decoder's view of the framing: codestream/parser.go on a single-tile-part stream -/
+
+/-- walk marker segments (`readMarker`, `readUint16` length, skip) until the marker `FF stop`; returns the bytes
+    starting AT that marker; `none` = truncated input.  Used for the main header (stop = SOT 0x90) and the tile-part
+    header (stop = SOD 0x93); the segments walked over are parsed elsewhere (SIZ/COD/QCD: C16 field round trips). -/
+def seekMarker (stop : Nat) : Nat → List Nat → Option (List Nat)
+  | 0, _ => none
+  | fuel + 1, bs =>
+    match bs with
+    | a :: b :: rest =>
+      if a = 0xFF ∧ b = stop then some bs
+      else match rest with
+        | l1 :: l2 :: _ => seekMarker stop fuel (rest.drop (l1 * 256 + l2))
+        | _ => none
+    | _ => none
+
+/-- readTileData: without a usable Psot, the data runs to the next `FF m`, `m ≥ 0x4F` -/
+def scanTileData : List Nat → List Nat
+  | a :: b :: rest => if a = 0xFF ∧ b ≠ 0 ∧ b ≥ 0x4F then [] else a :: scanTileData (b :: rest)
+  | [a] => [a]
+  | [] => []
+
+/-- Parser.Parse for a stream with one tile-part: SOC, main header, SOT (Lsot = 10), tile-part header, SOD, then
+    `readTileDataWithLength(tileStart, Psot)`: `Psot − (bytes since the SOT marker)` bytes of tile data -/
+def unframe (bs : List Nat) : Option (List Nat) :=
+  match bs with
+  | 0xFF :: 0x4F :: rest =>
+    match seekMarker 0x90 rest.length rest with
+    | none => none
+    | some sot =>
+      if sot.getD 2 0 * 256 + sot.getD 3 0 ≠ 10 then none else
+      let psot := JpegC.rd32 sot 6
+      match seekMarker 0x93 sot.length (sot.drop 12) with
+      | none => none
+      | some sod =>
+        let d := sod.drop 2
+        let consumed := sot.length - d.length
+        if psot ≠ 0 ∧ consumed ≤ psot ∧ psot - consumed ≤ d.length then some (d.take (psot - consumed))
+        else some (scanTileData d)
+  | _ => none
+
 end J2kGlue
